@@ -72,7 +72,7 @@ Theorem c02_touch : forall c key expire nr k eb,
     parse (render_all [CTouch k z nr]) = Some [CTouch k z nr].
 Proof. exact C02Proof.touch_wellformed. Qed.
 Theorem c02_flush : forall c delay nr db,
-  check_integer c delay = Ok db -> (forall z, int_value delay = Some z -> 0 <= z < 2 ^ 63) ->
+  check_integer c delay = Ok db -> (forall z, int_value delay = Some z -> 0 <= z) ->
   exists z, int_value delay = Some z /\
     L_flush_all_sp ++ db ++ nr_sfx nr ++ L_crlf = render (CFlush z nr) /\ parse (render_all [CFlush z nr]) = Some [CFlush z nr].
 Proof. exact C02Proof.flush_wellformed. Qed.
